@@ -117,7 +117,7 @@ def execute(arg):
 
         def ctx(rec=None):
             storage = [strax.DataDirectory(d)] + ([strax.DataDirectory(d2)] if d2 else [])
-            st = strax.Context(storage=storage, register=classes_for(graph, policy, rec=rec), allow_multiprocess=False, timeout=30)
+            st = strax.Context(storage=storage, register=classes_for(graph, policy, rec=rec), allow_multiprocess=False, timeout=120)
             cc = {}
             if case["forbid"] == "all":
                 cc["forbid_creation_of"] = "*"
@@ -216,7 +216,7 @@ def execute_fe(arg):
         def ctx(rec=None):
             storage = [strax.DataDirectory(d, readonly=bool(f["ro"]), take_only=tuple(f["only"]), exclude=tuple(f["excl"]))
                        for d, f in zip(dirs, case["fe"])]
-            return strax.Context(storage=storage, register=classes_for(graph, policy, rec=rec), allow_multiprocess=False, timeout=30)
+            return strax.Context(storage=storage, register=classes_for(graph, policy, rec=rec), allow_multiprocess=False, timeout=120)
 
         def where(path):
             return next((i + 1 for i, d in enumerate(dirs) if str(path).startswith(d)), 0)
